@@ -1,6 +1,8 @@
 """C17 - string functions satisfy their defining equations: MID$, INSTR, VAL kernels (DESIGN 4/C17)."""
 from vklib import Builder
 import strkernels as sk
+import bifn
+import slicer
 
 
 def spec(tier, seed):
@@ -16,6 +18,10 @@ def spec(tier, seed):
     for h in (1, 2, 3, 4):
         for m in (1, 2):
             sk.instr_equation(b, ins, "vk_c17", h, m, "quick" if h <= 3 else "thorough")
+    # needles of three letters (a search that skips ahead after a partial match goes wrong from there on)
+    sk.instr_equation(b, ins, "vk_c17", 4, 3, "quick")
+    sk.instr_equation(b, ins, "vk_c17", 5, 3, "thorough")
+    sk.instr_equation(b, ins, "vk_c17", 6, 4, "thorough")
     val = b.file(sk.VAL_FILE, "rusty_basic", "interpreter::built_ins::val")
     b.helper(val, sk.POWI10)
     # the type boundaries of VAL sit at 5 digits (32767 / 32768) and 10 digits (2147483647 / 2147483648)
@@ -24,14 +30,34 @@ def spec(tier, seed):
     for d in (1, 2, 5):
         sk.val_equation(b, val, "vk_c17", d, True, "quick" if d in (2, 5) else "thorough", core=d <= 5)
     sk.val_boundary(b, val, "vk_c17")      # 9 and more fully symbolic digits: no verdict in 1200 s
+    # LEFT$, RIGHT$, UCASE$, LCASE$, LTRIM$, RTRIM$, SPACE$, STRING$: the body of run() sliced from the current source
+    try:
+        bifn.left_right(b, "vk_c17", 1, (0, 1, 2), "quick")
+        bifn.left_right(b, "vk_c17", 2, (0,), "quick", only=("left",))
+        bifn.left_right(b, "vk_c17", 2, (0, 1, 2, 3), "quick", only=("right",))
+        bifn.left_right(b, "vk_c17", 3, (0,), "quick")
+        # String::push of a symbolic char: CBMC runs out of memory (8 GB) for some of these - thorough, non-core
+        bifn.left_right(b, "vk_c17", 2, (1, 2, 3), "thorough", core=False, only=("left",))
+        bifn.left_right(b, "vk_c17", 3, (1, 2, 3, 4, 32767), "thorough", core=False)
+        bifn.left_right_negative(b, "vk_c17", "quick")
+        for n in (0, 1, 2, 3, 4, 5):
+            bifn.case_fns(b, "vk_c17", n, "quick" if n in (1, 3) else "thorough")
+            bifn.trim_fns(b, "vk_c17", n, "quick" if n in (1, 3, 4) else "thorough")
+        for n in (1, 2, 3):
+            bifn.trim_fns(b, "vk_c17", n, "quick" if n == 2 else "thorough", blanks_only=False)
+        bifn.space_string(b, "vk_c17", "quick")
+        notes = []
+    except slicer.SliceError as e:
+        notes = ["built-in bodies could not be sliced from the current tree (%s): the LEFT$/RIGHT$/UCASE$/LCASE$/LTRIM$/RTRIM$/SPACE$/STRING$ instances are missing from this run" % e]
     casts = b.file(sk.CASTS_FILE, "rusty_basic", "interpreter::variant_casts")
     sk.arg_casts(b, casts, "vk_c17")
     return b.build(
         tier,
+        notes=notes,
         bounds="strings of exactly 0..3 (quick) / 0..4 (thorough) 7-bit bytes, one instance per length; needle 1..2; MID$ start 1..32767 and count 0..32767 (everything the argument conversions let through), INSTR start 1..len+2; "
                "VAL on 1, 3, 5 digits (quick) / up to 7 digits (thorough) and around the LONG boundary (+-21474836dd); argument conversions full width",
         outside="LEFT$, RIGHT$, LTRIM$, RTRIM$, UCASE$, LCASE$, SPACE$, STRING$, LEN and the concatenation laws (inline in "
                 "run<S: InterpreterTrait>, need the VM Context); STR$ (format!); non-ASCII strings; INSTR with an empty needle",
-        stubs=["f64::powi(10.0, k) -> exact product for 0 <= k <= 6 (Kani over-approximates powi); used only by vk_c17_val_*"],
+        stubs=[bifn.STUB_NOTE, "f64::powi(10.0, k) -> exact product for 0 <= k <= 6 (Kani over-approximates powi); used only by vk_c17_val_*"],
         assumptions=["the string argument has been type-checked (to_str_unchecked is not part of the kernels)"],
     )
